@@ -53,6 +53,49 @@ func parseOpts(s string) *inspector.DEQOptions {
 	return o
 }
 
+// optsWritten is set when a call changed the options object it was handed (DeepEqual is a read operation: it changes
+// neither its operands nor its options - a default written into the caller's options is a write to what callers share)
+var optsWritten bool
+
+func sameOpts(a, b *inspector.DEQOptions) bool {
+	if a == nil || b == nil {
+		return a == b
+	}
+	if a.Precision != b.Precision || len(a.Exclude) != len(b.Exclude) || len(a.Filter) != len(b.Filter) ||
+		(a.Exclude == nil) != (b.Exclude == nil) || (a.Filter == nil) != (b.Filter == nil) {
+		return false
+	}
+	for k := range a.Exclude {
+		if _, ok := b.Exclude[k]; !ok {
+			return false
+		}
+	}
+	for k := range a.Filter {
+		if _, ok := b.Filter[k]; !ok {
+			return false
+		}
+	}
+	return true
+}
+
+// withOpts runs f on options parsed from the text and checks them against a second parse afterwards
+func withOpts(optText string, f func(o *inspector.DEQOptions) bool) bool {
+	o := parseOpts(optText)
+	r := f(o)
+	if !sameOpts(o, parseOpts(optText)) {
+		optsWritten = true
+	}
+	return r
+}
+
+func optsMark() string {
+	if optsWritten {
+		optsWritten = false
+		return ";options-written"
+	}
+	return ""
+}
+
 func tf(b bool) string {
 	if b {
 		return "t"
@@ -84,15 +127,16 @@ func init() {
 			if optText == "-" {
 				return ins.DeepEqual(l, r)
 			}
-			return ins.DeepEqualWithOptions(l, r, parseOpts(optText))
+			return withOpts(optText, func(o *inspector.DEQOptions) bool { return ins.DeepEqualWithOptions(l, r, o) })
 		}
+		optsWritten = false
 		var cells []string
 		for _, lf := range valueForms {
 			for _, rf := range valueForms {
 				cells = append(cells, lf+"-"+rf+"="+tf(call(as[lf], bs[rf]))+tf(call(bs[rf], as[lf])))
 			}
 		}
-		return strings.Join(cells, ";")
+		return strings.Join(cells, ";") + optsMark()
 	}
 	ops["deq"] = func(ins inspector.Inspector, t reflect.Type, form string, args []string, value string) string {
 		formR, optText, mode, valueA := args[0], args[1], args[2], args[3]
@@ -107,11 +151,12 @@ func init() {
 			if optText == "-" {
 				return ins.DeepEqual(l, r)
 			}
-			return ins.DeepEqualWithOptions(l, r, parseOpts(optText))
+			return withOpts(optText, func(o *inspector.DEQOptions) bool { return ins.DeepEqualWithOptions(l, r, o) })
 		}
+		optsWritten = false
 		ab := call(la, ra)
 		ba := call(ra, la)
-		return "ab=" + tf(ab) + ";ba=" + tf(ba)
+		return "ab=" + tf(ab) + ";ba=" + tf(ba) + optsMark()
 	}
 	ops["mustcheck"] = func(ins inspector.Inspector, t reflect.Type, form string, args []string, value string) string {
 		b, err := hex.DecodeString(value)
@@ -121,11 +166,14 @@ func init() {
 		return tf(inspector.DEQMustCheck(string(b), parseOpts(args[0])))
 	}
 	ops["eqf"] = func(ins inspector.Inspector, t reflect.Type, form string, args []string, value string) string {
-		o := parseOpts(args[1])
 		a, b := ParseFloat(args[2]), ParseFloat(value)
-		if args[0] == "32" {
-			return tf(inspector.EqualFloat32(float32(a), float32(b), o))
-		}
-		return tf(inspector.EqualFloat64(a, b, o))
+		optsWritten = false
+		r := withOpts(args[1], func(o *inspector.DEQOptions) bool {
+			if args[0] == "32" {
+				return inspector.EqualFloat32(float32(a), float32(b), o)
+			}
+			return inspector.EqualFloat64(a, b, o)
+		})
+		return tf(r) + optsMark()
 	}
 }
